@@ -316,7 +316,13 @@ pub struct View {
     pub seeks: Vec<String>,
     /// zig-zag walk from the first entry following `moves` ('n' / 'p'); key after each move, stops when invalid
     pub zigzag: Vec<String>,
+    /// cursor scripts per key of interest (see `SCRIPTS`): key under the cursor after the script ("-" = invalid)
+    pub scripts: Vec<Vec<String>>,
 }
+
+/// Cursor scripts run on a fresh iterator for every key of interest: F = seek_to_first, L = seek_to_last,
+/// S = seek(key), n = next, p = prev (a step on an invalid cursor ends the script).
+pub const SCRIPTS: [&str; 5] = ["LpSp", "FnSn", "Spn", "Snp", "LSpp"];
 
 fn hexs(b: &[u8]) -> String { b.iter().map(|x| format!("{:02x}", x)).collect() }
 
@@ -395,7 +401,26 @@ pub fn run_views(ops: &[DbOp], keys: &[Vec<u8>], moves: &str) -> Vec<View> {
             if m == 'n' { it.next(); } else { it.prev(); }
             zigzag.push(if it.is_valid() { hexs(it.current().unwrap().0) } else { "-".to_string() });
         }
-        views.push(View { taken_at, gets, forward, backward, seeks, zigzag });
+        let mut scripts = vec![];
+        for k in keys {
+            let mut row = vec![];
+            for sc in SCRIPTS.iter() {
+                let mut it = d.new_iterator(ro()).unwrap();
+                let mut started = false;
+                for c in sc.chars() {
+                    match c {
+                        'F' => { it.seek_to_first().unwrap(); started = true; }
+                        'L' => { if forward.is_empty() { break; } it.seek_to_last().unwrap(); started = true; }
+                        'S' => { it.seek(k).unwrap(); started = true; }
+                        'n' => { if !started || !it.is_valid() { break; } it.next(); }
+                        _ => { if !started || !it.is_valid() { break; } it.prev(); }
+                    }
+                }
+                row.push(if started && it.is_valid() { hexs(it.current().unwrap().0) } else { "-".to_string() });
+            }
+            scripts.push(row);
+        }
+        views.push(View { taken_at, gets, forward, backward, seeks, zigzag, scripts });
     }
     views
 }
